@@ -133,6 +133,9 @@ N_TLS = {"stem": "thread_list_stream", "filter": "", "tiers": Q, "tests": {
     "c06_no_plausible_mapping_within_guard_distance_gives_an_empty_stack": H("B'", "fill_thread_stack / get_stack_info", "sp inside a 3 MiB inaccessible region, with and without the limit"),
     "c20_ip_at_end_of_principal_mapping_is_outside": H("B'", "fill_thread_stack", "ip == end of the principal mapping, all-zero stack"),
 }}
+N_TLS_C02 = {"stem": "thread_list_stream", "filter": "c02_", "tiers": Q, "tests": {
+    "c02_crash_ip_window_at_the_edges_of_the_address_space": H("B'", "thread_list_stream::write (crash branch, synthetic mappings)", "4 crash instruction pointers less than 128 bytes from address 0 / usize::MAX inside a mapping that reaches it"),
+}}
 N_C09 = {"name": "c09_dest", "tiers": Q, "tests": {
     "bprime_destination_equals_image_for_every_short_history": H("B'", "DirSection (real std::io::Cursor)", "every sequence of <= 4 ops from 5 kinds x 3 start offsets x 3 prefills")}}
 N_LIVE_PREFIX = {"name": "c10_live_prefix", "tiers": Q, "tests": {
@@ -516,7 +519,7 @@ PLAN["C02"] = {
               {"unit": "stack_scan", "functions": ["stack_has_pointer_to_mapping"], "tags": ["C02"], "tiers": Q},
               {"unit": "mem_writer", "functions": None, "tags": ["C02"], "tiers": Q}],
     "kani": [{"tiers": Q, "jobs": 8, "timeout": 1200, "harnesses": dict(K_HAS_PTR, **dict(K_FIND, **{"vk_safe_to_open_table": H("B", "MappingInfo::is_mapped_file_safe_to_open", "5 concrete names")}))}],
-    "native": [N_PD_TOTAL,
+    "native": [N_PD_TOTAL, N_TLS_C02,
                {"stem": "maps_reader", "filter": "bprime_so_version", "tiers": Q, "tests": {
                    "bprime_so_version_parse_is_total": H("B'", "SoVersion::parse", "every name lib.so.<s>, s over 8 characters (2 non-ASCII), |s| <= 5: 37 449 names")}},
                {"stem": "module_reader", "filter": "bprime_single", "tiers": Q, "tests": {
